@@ -656,7 +656,9 @@ class QvmCpu:
         if len(value) == 0:
             self.trap(TrapCode.INVALID_OPERAND_VALUE,
                       desc='ASC does not accept empty strings')
-        self.push(CellType.INTEGER, ord(value[0]))
+        # strings hold cp437 text; ASC is the character's code in that
+        # code page, not its Unicode code point
+        self.push(CellType.INTEGER, value[0].encode('cp437')[0])
 
     def _exec_call(self, target):
         self.push(CellType.LONG, self.pc)
